@@ -73,8 +73,10 @@ func execKeys(c *ctx, in ev) []ev {
 		// a name key received as bytes (every suite go-hpke implements), decoded, then used by a client
 		orig := gB(in, "enc")
 		out := ev{"op": "NameKey", "fields": ev{"id": 0, "kem": 0, "pk": B(nil), "kdf": 0, "aead": 0}, "marshal": B(nil), "sha_marshal": B(nil),
-			"name_key_id": B(nil), "orig": B(orig), "decoded": false}
-		buf := append([]byte{}, orig...)
+			"name_key_id": B(nil), "orig": B(orig), "decoded": false, "tail_len": len(gB(in, "tail"))}
+		// (the key may be followed by other data in the buffer it is decoded from - a configuration carrying more
+		// than the key: the decoder either refuses, or yields the key that the first bytes encode)
+		buf := append(append([]byte{}, orig...), gB(in, "tail")...)
 		nk, err := type3.UnmarshalEncapKey(buf)
 		if err != nil {
 			return []ev{out}
@@ -151,7 +153,7 @@ func execKeys(c *ctx, in ev) []ev {
 			m := nk.Marshal()
 			sm := sha256.Sum256(m)
 			evs = append(evs, ev{"op": "NameKey", "fields": ev{"id": int(id), "kem": int(kem), "pk": B(pk), "kdf": int(kdf), "aead": int(aead)},
-				"marshal": B(m), "sha_marshal": B(sm[:]), "name_key_id": B(st.Request().NameKeyID), "orig": B(m), "decoded": true})
+				"marshal": B(m), "sha_marshal": B(sm[:]), "name_key_id": B(st.Request().NameKeyID), "orig": B(m), "decoded": true, "tail_len": 0})
 		}
 		sp := sha256.Sum256(pub)
 		out["pub"], out["sha_pub"], out["key_id"], out["trunc"] = B(pub), B(sp[:]), B(keyID), trunc
@@ -205,6 +207,8 @@ func genKeys(c *ctx, emit func(ev)) {
 			enc := append([]byte{byte(r.Intn(256)), 0x00, 0x20}, randBytes(r, 32)...)
 			enc = append(enc, byte(kdf>>8), byte(kdf), byte(aead>>8), byte(aead))
 			emit(ev{"op": "DecodedNameKey", "enc": B(enc)})
+			emit(ev{"op": "DecodedNameKey", "enc": B(enc), "tail": B(randBytes(r, 1+r.Intn(60)))})
+			emit(ev{"op": "DecodedNameKey", "enc": B(enc), "tail": B(make([]byte, 1+aead))})
 		}
 	}
 	for i := 0; i < 4; i++ {
